@@ -174,6 +174,9 @@ def ref_slope(name, params, x):
     """analytic d/dx of the reference model"""
     if name in USER_MODELS:
         return USER_MODELS[name][3](x, params)
+    if name in POLY_MODELS:
+        d = len(params) - 1
+        return float(sum((d - i) * float(c) * float(x) ** (d - i - 1) for i, c in enumerate(params) if d - i >= 1))
     if name == "userquad":
         a, b = params
         return 2 * a * x + b
@@ -1321,6 +1324,7 @@ def observe(res, case):
             "band": [float(f(x).error) for x in ev],
             "table": [float(f(float(x)).value) for x in case["xs"]],
             "residuals": [float(r.value) for r in res.residuals],
+            "residual_errors": [float(r.error) for r in res.residuals],
             "chi2": float(res.chi_squared), "ndof": int(res.ndof),
         })
         # evaluate again at the same points after the value returned the first time was used / modified by its owner
